@@ -68,7 +68,13 @@ def run_find(n, arrival, kind, timeout=3.0, subop=None, bad_last=False):
         if subop is None and i == arrival:
             at_point.set()
             go.wait(timeout)
-            time.sleep(0.05)  # let the PDU reach the acceptor's provider
+            # let the PDU reach the acceptor's provider: wait until its state machine has processed the request (a peer
+            # that has asked for release may not answer sub-operations any more, so the handler must not run ahead)
+            a_ = acc.get("assoc")
+            t_w = time.monotonic()
+            while a_ is not None and time.monotonic() - t_w < 2.0 and a_.dul.state_machine.current_state == "Sta6":
+                time.sleep(0.002)
+            time.sleep(0.01)
 
     def h_find(event):
         acc["assoc"] = event.assoc
@@ -106,6 +112,9 @@ def run_find(n, arrival, kind, timeout=3.0, subop=None, bad_last=False):
         ("127.0.0.1", 0), block=False,
         evt_handlers=[(evt.EVT_C_FIND, h_find), (evt.EVT_C_GET, h_get),
                       (evt.EVT_RELEASED, lambda e: released.append(1)), (evt.EVT_ABORTED, lambda e: aborted.append(1)),
+                      # an observer of the state machine that takes its time (a state logger doing I/O): notification
+                      # handlers run between an action and the state change, which must not open a window for anyone
+                      (evt.EVT_FSM_TRANSITION, (lambda e: time.sleep(0.03)) if (n + arrival) % 2 == 1 else (lambda e: None)),
                       (evt.EVT_ESTABLISHED, lambda e: acc.__setitem__("assoc", e.assoc))],
     )
     port = srv.socket.getsockname()[1]
